@@ -183,25 +183,50 @@ end Rj.Exe
 
 namespace Rj.Exe
 
-theorem shiftOffsets_step (t : Bytes) (es ins n start : Nat) :
-    shiftOffsets t es ins (n + 1) start = (do
-      let oo ← add U64 (start * es) 0x18
-      let orig ← readField t oo 8
-      let nw ← add U64 orig ins
-      let t ← writeField t oo 8 nw
-      shiftOffsets t es ins n (start + 1)) := rfl
+/-- one turn of the loop: the table after looking at section `idx` -/
+def shiftOne (t : Bytes) (es ins at_ sx idx : Nat) : Bytes :=
+  if idx ≠ sx ∧ at_ ≤ leVal (slice t (idx * es + 0x18) 8) then
+    patch t (idx * es + 0x18) (leBytes 8 (leVal (slice t (idx * es + 0x18) 8) + ins))
+  else t
 
-/-- the loop that bumps the file offsets of the sections behind the names section: it succeeds, keeps
-the table's length, adds `ins` to exactly the 8-byte offset fields of the sections `start ≤ idx < start+n`
+theorem shiftOffsets_step (t : Bytes) (es ins at_ sx n start : Nat)
+    (hw : start * es + 0x18 + 8 ≤ t.length) (hU : t.length < U64)
+    (hv : start ≠ sx → leVal (slice t (start * es + 0x18) 8) + ins < U64) :
+    shiftOffsets t es ins at_ sx (n + 1) start = shiftOffsets (shiftOne t es ins at_ sx start) es ins at_ sx n (start + 1) := by
+  have hU64 : U64 = 2 ^ 64 := rfl
+  show (if start = sx then shiftOffsets t es ins at_ sx n (start + 1) else _) = _
+  by_cases hs : start = sx
+  · rw [if_pos hs]; unfold shiftOne; rw [if_neg (by intro h; exact h.1 hs)]
+  · rw [if_neg hs]
+    simp only [add, show start * es + 0x18 < U64 by omega, ↓reduceIte, bind_ok]
+    rw [readField_eq _ _ _ hw (by omega)]
+    simp only [bind_ok]
+    by_cases ha : at_ ≤ leVal (slice t (start * es + 0x18) 8)
+    · have hso : shiftOne t es ins at_ sx start = patch t (start * es + 0x18) (leBytes 8 (leVal (slice t (start * es + 0x18) 8) + ins)) := by
+        unfold shiftOne; rw [if_pos ⟨hs, ha⟩]
+      rw [hso, if_pos ha]
+      simp only [hv hs, ↓reduceIte, bind_ok]
+      rw [writeField_eq _ _ _ _ hw (by omega)]
+      simp only [bind_ok]
+    · have hso : shiftOne t es ins at_ sx start = t := by
+        unfold shiftOne; rw [if_neg (by intro h; exact ha h.2)]
+      rw [hso, if_neg ha]
+      simp only [bind_ok]
+
+/-- the loop that bumps the file offsets of the sections whose data lies at or behind the insertion point: it succeeds, keeps
+the table's length, adds `ins` to exactly the 8-byte offset fields of the sections `idx ≠ sx` whose offset is `≥ at_`
 and leaves every other byte alone -/
-theorem shiftOffsets_spec (es ins : Nat) (hes : 0x20 ≤ es) (n : Nat) : ∀ (t : Bytes) (start : Nat),
+theorem shiftOffsets_spec (es ins at_ sx : Nat) (hes : 0x20 ≤ es) (n : Nat) : ∀ (t : Bytes) (start : Nat),
     t.length < U64 →
     (∀ idx, start ≤ idx → idx < start + n →
         idx * es + 0x20 ≤ t.length ∧ leVal (slice t (idx * es + 0x18) 8) + ins < U64) →
-    ∃ t', shiftOffsets t es ins n start = .ok t' ∧ t'.length = t.length ∧
-      (∀ j, (∀ idx, start ≤ idx → idx < start + n → ¬ (idx * es + 0x18 ≤ j ∧ j < idx * es + 0x20)) → t'[j]? = t[j]?) ∧
+    ∃ t', shiftOffsets t es ins at_ sx n start = .ok t' ∧ t'.length = t.length ∧
+      (∀ j, (∀ idx, start ≤ idx → idx < start + n → idx ≠ sx → at_ ≤ leVal (slice t (idx * es + 0x18) 8) →
+          ¬ (idx * es + 0x18 ≤ j ∧ j < idx * es + 0x20)) → t'[j]? = t[j]?) ∧
       (∀ idx, start ≤ idx → idx < start + n →
-        leVal (slice t' (idx * es + 0x18) 8) = leVal (slice t (idx * es + 0x18) 8) + ins) := by
+        leVal (slice t' (idx * es + 0x18) 8) =
+          if idx ≠ sx ∧ at_ ≤ leVal (slice t (idx * es + 0x18) 8) then leVal (slice t (idx * es + 0x18) 8) + ins
+          else leVal (slice t (idx * es + 0x18) 8)) := by
   induction n with
   | zero =>
     intro t start _ _
@@ -209,65 +234,66 @@ theorem shiftOffsets_spec (es ins : Nat) (hes : 0x20 ≤ es) (n : Nat) : ∀ (t 
   | succ n ih =>
     intro t start hU hin
     obtain ⟨h0a, h0b⟩ := hin start (Nat.le_refl _) (by omega)
-    have hoo : start * es + 0x18 < U64 := by omega
-    have hnw : leVal (slice t (start * es + 0x18) 8) + ins < U64 := h0b
-    have hb8 : (leBytes 8 (leVal (slice t (start * es + 0x18) 8) + ins)).length = 8 := length_leBytes _ _
     have hw : start * es + 0x18 + 8 ≤ t.length := by omega
-    let t1 := patch t (start * es + 0x18) (leBytes 8 (leVal (slice t (start * es + 0x18) 8) + ins))
-    have hl1 : t1.length = t.length := length_patch _ _ _ (by rw [hb8]; exact hw)
+    have hb8 : ∀ v, (leBytes 8 v).length = 8 := fun v => length_leBytes 8 v
+    have hwp : start * es + 0x18 + (leBytes 8 (leVal (slice t (start * es + 0x18) 8) + ins)).length ≤ t.length := by rw [hb8]; exact hw
+    -- the table after this turn
+    generalize ht1 : shiftOne t es ins at_ sx start = t1
+    have hl1 : t1.length = t.length := by
+      rw [← ht1]; unfold shiftOne; split
+      · exact length_patch _ _ _ hwp
+      · rfl
+    have hother : ∀ idx, start + 1 ≤ idx → slice t1 (idx * es + 0x18) 8 = slice t (idx * es + 0x18) 8 := by
+      intro idx h1
+      have hm := Nat.mul_le_mul_right es h1
+      rw [Nat.succ_mul] at hm
+      rw [← ht1]; unfold shiftOne; split
+      · exact slice_patch_disjoint _ _ _ _ _ hwp (by rw [hb8]; right; omega)
+      · rfl
+    have hframe1 : ∀ j, ((start ≠ sx ∧ at_ ≤ leVal (slice t (start * es + 0x18) 8)) → ¬ (start * es + 0x18 ≤ j ∧ j < start * es + 0x20)) → t1[j]? = t[j]? := by
+      intro j hj
+      rw [← ht1]; unfold shiftOne; split
+      · next hc =>
+        have := hj hc
+        rw [getElem?_patch _ _ _ _ hwp, hb8]
+        by_cases h1 : j < start * es + 0x18
+        · rw [if_pos h1]
+        · rw [if_neg h1, if_neg (by omega)]
+      · rfl
     have hin1 : ∀ idx, start + 1 ≤ idx → idx < start + 1 + n →
         idx * es + 0x20 ≤ t1.length ∧ leVal (slice t1 (idx * es + 0x18) 8) + ins < U64 := by
       intro idx h1 h2
       obtain ⟨ha, hb⟩ := hin idx (by omega) (by omega)
-      have hm := Nat.mul_le_mul_right es h1
-      rw [Nat.succ_mul] at hm
-      refine ⟨by rw [hl1]; exact ha, ?_⟩
-      have : slice t1 (idx * es + 0x18) 8 = slice t (idx * es + 0x18) 8 :=
-        slice_patch_disjoint _ _ _ _ _ (by rw [hb8]; exact hw) (by rw [hb8]; right; omega)
-      rw [this]; exact hb
+      exact ⟨by rw [hl1]; exact ha, by rw [hother idx h1]; exact hb⟩
     obtain ⟨t', he, hl', hfr, hval⟩ := ih t1 (start + 1) (by rw [hl1]; exact hU) hin1
     refine ⟨t', ?_, by rw [hl', hl1], ?_, ?_⟩
-    · rw [shiftOffsets_step]
-      simp only [add, hoo, ↓reduceIte, bind_ok]
-      rw [readField_eq _ _ _ hw (by omega)]
-      simp only [bind_ok, hnw, ↓reduceIte]
-      rw [writeField_eq _ _ _ _ hw (by omega)]
-      simp only [bind_ok]
+    · rw [shiftOffsets_step t es ins at_ sx n start hw hU (fun _ => h0b), ht1]
       exact he
     · intro j hj
-      rw [hfr j (fun idx h1 h2 => hj idx (by omega) (by omega))]
-      show (patch _ _ _)[j]? = _
-      rw [getElem?_patch _ _ _ _ (by rw [hb8]; exact hw)]
-      have := hj start (Nat.le_refl _) (by omega)
-      rw [hb8]
-      by_cases h1 : j < start * es + 0x18
-      · rw [if_pos h1]
-      · rw [if_neg h1, if_neg (by omega)]
+      rw [hfr j (fun idx h1 h2 h3 h4 => hj idx (by omega) (by omega) h3 (by rw [← hother idx h1]; exact h4))]
+      exact hframe1 j (fun hc => hj start (Nat.le_refl _) (by omega) hc.1 hc.2)
     · intro idx h1 h2
       by_cases hi : idx = start
       · subst hi
-        -- the later writes leave this window alone
+        -- the later turns leave this window alone
         have hsl : slice t' (idx * es + 0x18) 8 = slice t1 (idx * es + 0x18) 8 := by
           apply slice_congr
           intro i hi8
           apply hfr
-          intro idx' h1' h2' hc
+          intro idx' h1' h2' _ _ hc
           have hm := Nat.mul_le_mul_right es h1'
           rw [Nat.succ_mul] at hm
           omega
-        rw [hsl]
-        show leVal (slice (patch _ _ _) _ 8) = _
-        have := slice_patch_same t (idx * es + 0x18) (leBytes 8 (leVal (slice t (idx * es + 0x18) 8) + ins)) (by rw [hb8]; exact hw)
-        rw [hb8] at this
-        rw [this, leVal_leBytes]
-        have : U64 = 256 ^ 8 := by decide
-        omega
-      · rw [hval idx (by omega) (by omega)]
-        have hm := Nat.mul_le_mul_right es (show start + 1 ≤ idx by omega)
-        rw [Nat.succ_mul] at hm
-        have : slice t1 (idx * es + 0x18) 8 = slice t (idx * es + 0x18) 8 :=
-          slice_patch_disjoint _ _ _ _ _ (by rw [hb8]; exact hw) (by rw [hb8]; right; omega)
-        rw [this]
+        rw [hsl, ← ht1]
+        unfold shiftOne
+        split
+        · have := slice_patch_same t (idx * es + 0x18) (leBytes 8 (leVal (slice t (idx * es + 0x18) 8) + ins)) hwp
+          rw [hb8] at this
+          rw [this, leVal_leBytes]
+          have : U64 = 256 ^ 8 := by decide
+          omega
+        · rfl
+      · rw [hval idx (by omega) (by omega), hother idx (by omega)]
 
 end Rj.Exe
 
@@ -278,6 +304,16 @@ theorem slice_drop (b : Bytes) (k o n : Nat) : slice (b.drop k) o n = slice b (k
   intro i _
   rw [List.getElem?_drop]
   congr 1; omega
+
+theorem mul_tri' (i idx es : Nat) : i * es + es ≤ idx * es ∨ i = idx ∨ idx * es + es ≤ i * es := by
+  rcases Nat.lt_trichotomy i idx with h | h | h
+  · left
+    have := Nat.mul_le_mul_right es (show i + 1 ≤ idx from h)
+    rwa [Nat.succ_mul] at this
+  · right; left; exact h
+  · right; right
+    have := Nat.mul_le_mul_right es (show idx + 1 ≤ i from h)
+    rwa [Nat.succ_mul] at this
 
 theorem slice_take (b : Bytes) (k o n : Nat) (h : o + n ≤ k) : slice (b.take k) o n = slice b o n := by
   apply slice_congr
@@ -290,11 +326,13 @@ def hdrOf (es ns newOff plen : Nat) : Bytes :=
 /-- the names section's new size and the shifted offsets: the modified section header table -/
 def tableOk (b : Bytes) (name : Bytes) (T2 : Bytes) : Prop :=
   let sh := eShoff b; let es := eEntsize b; let num := eNum b; let sx := eStrndx b
+  let at_ := eNamesOff b + eNamesSize b
   T2.length = num * es ∧
   (∀ j, ¬ (sx * es + 0x20 ≤ j ∧ j < sx * es + 0x28) →
-        (∀ idx, sx < idx → idx < num → ¬ (idx * es + 0x18 ≤ j ∧ j < idx * es + 0x20)) → T2[j]? = b[sh + j]?) ∧
+        (∀ idx, idx < num → idx ≠ sx → at_ ≤ secField b idx 0x18 8 → ¬ (idx * es + 0x18 ≤ j ∧ j < idx * es + 0x20)) → T2[j]? = b[sh + j]?) ∧
   leVal (slice T2 (sx * es + 0x20) 8) = eNamesSize b + (name.length + 1) ∧
-  (∀ idx, sx < idx → idx < num → leVal (slice T2 (idx * es + 0x18) 8) = secField b idx 0x18 8 + (name.length + 1))
+  (∀ idx, idx < num → leVal (slice T2 (idx * es + 0x18) 8) =
+      if idx ≠ sx ∧ at_ ≤ secField b idx 0x18 8 then secField b idx 0x18 8 + (name.length + 1) else secField b idx 0x18 8)
 
 theorem validateElf_congr (b b' : Bytes) (h7 : 7 ≤ b.length) (h7' : 7 ≤ b'.length) (hU : b.length < U64) (_hU' : b'.length < U64)
     (h : ∀ i, i < 7 → b'[i]? = b[i]?) : validateElf b' = validateElf b := by
@@ -356,33 +394,36 @@ theorem addElf_eq (b name payload : Bytes) (v : ValidElf b name) (hsz : b.length
     rw [hb8, hT]; omega
   have hT1 : (patch (b.drop (eShoff b)) (eStrndx b * eEntsize b + 32) (leBytes 8 (eNamesSize b + (name.length + 1)))).length
       = eNum b * eEntsize b := by rw [length_patch _ _ _ hw1, hT]
-  have hidx : ∀ idx, eStrndx b + 1 ≤ idx → idx < eNum b →
-      eStrndx b * eEntsize b + eEntsize b ≤ idx * eEntsize b ∧ idx * eEntsize b + eEntsize b ≤ eNum b * eEntsize b := by
-    intro idx h1 h2
-    have a := Nat.mul_le_mul_right (eEntsize b) h1
+  have hidx : ∀ idx, idx < eNum b → idx * eEntsize b + eEntsize b ≤ eNum b * eEntsize b := by
+    intro idx h2
     have c := Nat.mul_le_mul_right (eEntsize b) (show idx + 1 ≤ eNum b from h2)
-    rw [Nat.succ_mul] at a c
-    exact ⟨a, c⟩
-  have hsl1 : ∀ idx, eStrndx b + 1 ≤ idx → idx < eNum b →
+    rwa [Nat.succ_mul] at c
+  have hsl1 : ∀ idx, idx < eNum b →
       slice (patch (b.drop (eShoff b)) (eStrndx b * eEntsize b + 32) (leBytes 8 (eNamesSize b + (name.length + 1)))) (idx * eEntsize b + 0x18) 8
         = slice b (eShoff b + idx * eEntsize b + 0x18) 8 := by
-    intro idx h1 h2
-    obtain ⟨a, c⟩ := hidx idx h1 h2
-    rw [slice_patch_disjoint _ _ _ _ _ hw1 (by rw [hb8]; right; omega), slice_drop, Nat.add_assoc]
-  obtain ⟨T2, hT2e, hT2l, hT2f, hT2v⟩ := shiftOffsets_spec (eEntsize b) (name.length + 1) (by omega)
-    (eNum b - (eStrndx b + 1))
+    intro idx h2
+    have c := hidx idx h2
+    rw [slice_patch_disjoint _ _ _ _ _ hw1 (by
+        rw [hb8]
+        rcases mul_tri' idx (eStrndx b) (eEntsize b) with h | h | h
+        · left; omega
+        · rw [h]; left; omega
+        · right; omega), slice_drop, Nat.add_assoc]
+  have hsec : ∀ idx, leVal (slice b (eShoff b + idx * eEntsize b + 0x18) 8) = secField b idx 0x18 8 := fun _ => rfl
+  obtain ⟨T2, hT2e, hT2l, hT2f, hT2v⟩ := shiftOffsets_spec (eEntsize b) (name.length + 1) (eNamesOff b + eNamesSize b) (eStrndx b) (by omega)
+    (eNum b)
     (patch (b.drop (eShoff b)) (eStrndx b * eEntsize b + 32) (leBytes 8 (eNamesSize b + (name.length + 1))))
-    (eStrndx b + 1) (by rw [hT1]; omega) (by
-      intro idx h1 h2
+    0 (by rw [hT1]; omega) (by
+      intro idx _ h2
       have h2' : idx < eNum b := by omega
-      obtain ⟨a, c⟩ := hidx idx h1 h2'
+      have c := hidx idx h2'
       refine ⟨by rw [hT1]; omega, ?_⟩
-      rw [hsl1 idx h1 h2']
-      exact hshift idx h2' (by omega))
+      rw [hsl1 idx h2', hsec]
+      exact hshift idx h2')
   refine ⟨T2, ?_, ?_⟩
   · refine ⟨by rw [hT2l, hT1], ?_, ?_, ?_⟩
     · intro j hj1 hj2
-      rw [hT2f j (fun idx h1 h2 => hj2 idx (by omega) (by omega)), getElem?_patch _ _ _ _ hw1, hb8]
+      rw [hT2f j (fun idx _ h2 h3 h4 => hj2 idx (by omega) h3 (by rw [hsl1 idx (by omega), hsec] at h4; exact h4)), getElem?_patch _ _ _ _ hw1, hb8]
       by_cases h1 : j < eStrndx b * eEntsize b + 32
       · rw [if_pos h1, List.getElem?_drop]
       · rw [if_neg h1, if_neg (by omega), List.getElem?_drop]
@@ -392,18 +433,19 @@ theorem addElf_eq (b name payload : Bytes) (v : ValidElf b name) (hsz : b.length
         apply slice_congr
         intro i hi
         apply hT2f
-        intro idx h1 h2 hc
-        obtain ⟨a, c⟩ := hidx idx h1 (by omega)
-        omega
+        intro idx _ h2 h3 _ hc
+        rcases mul_tri' idx (eStrndx b) (eEntsize b) with h | h | h
+        · omega
+        · exact h3 h
+        · omega
       rw [this]
       have := slice_patch_same (b.drop (eShoff b)) (eStrndx b * eEntsize b + 32) (leBytes 8 (eNamesSize b + (name.length + 1))) hw1
       rw [hb8] at this
       rw [this, leVal_leBytes]
       have : U64 = 256 ^ 8 := by decide
       omega
-    · intro idx h1 h2
-      rw [hT2v idx (by omega) (by omega), hsl1 idx (by omega) h2]
-      rfl
+    · intro idx h2
+      rw [hT2v idx (by omega) (by omega), hsl1 idx h2, hsec]
   · rw [hT2e]
     simp only [bind_ok]
     have hz : (zeros (eEntsize b)).length = eEntsize b := by simp [zeros]
@@ -873,5 +915,43 @@ theorem addElf_preserved (b name payload : Bytes) (v : ValidElf b name) (hsz : b
 end Rj.Exe
 
 namespace Rj.Exe
+
+end Rj.Exe
+
+namespace Rj.Exe
+
+/-- **Every old section is found, unchanged, where the result's header for it points** - whatever the order of the sections in the
+file and in the table (the repair of C19-F12): for a section other than the names section that lies behind the ELF header and in
+front of the section header table and does not straddle the insertion point, the bytes at the offset its header in the RESULT
+holds are the bytes it had in the input. -/
+theorem addElf_sections_preserved (b name payload : Bytes) (v : ValidElf b name) (hsz : b.length + payload.length + 2 ^ 17 < U64) :
+    ∃ out, addElf b name payload = .ok out ∧
+      ∀ idx, idx < eNum b → idx ≠ eStrndx b →
+        64 ≤ secField b idx 0x18 8 → secField b idx 0x18 8 + secField b idx 0x20 8 ≤ eShoff b →
+        (secField b idx 0x18 8 + secField b idx 0x20 8 ≤ eNamesOff b + eNamesSize b ∨ eNamesOff b + eNamesSize b ≤ secField b idx 0x18 8) →
+        slice out (leVal (slice out (eShoff out + idx * eEntsize b + 0x18) 8)) (secField b idx 0x20 8) =
+          slice b (secField b idx 0x18 8) (secField b idx 0x20 8) := by
+  obtain ⟨out, T2, hadd, hT, hlow, hhigh, htab, hshoff, -⟩ := addElf_preserved b name payload v hsz
+  refine ⟨out, hadd, ?_⟩
+  intro idx hi hne h64 hin hside
+  obtain ⟨hT2l, -, -, hT2v⟩ := hT
+  have hmul : idx * eEntsize b + eEntsize b ≤ eNum b * eEntsize b := by
+    have := Nat.mul_le_mul_right (eEntsize b) (show idx + 1 ≤ eNum b from hi)
+    rwa [Nat.succ_mul] at this
+  have hes := v.hes
+  -- the offset field of this section in the result's table
+  have hfield : slice out (eShoff out + idx * eEntsize b + 0x18) 8 = slice T2 (idx * eEntsize b + 0x18) 8 := by
+    apply slice_congr
+    intro i hi8
+    rw [hshoff, Nat.add_assoc _ (idx * eEntsize b) 0x18, Nat.add_assoc _ (idx * eEntsize b + 0x18) i]
+    exact htab _ (by omega)
+  rw [hfield, hT2v idx hi]
+  apply slice_congr
+  intro i hisz
+  rcases hside with hbefore | hafter
+  · rw [if_neg (by intro h; omega)]
+    exact hlow _ (by omega) (by omega) (by omega)
+  · rw [if_pos ⟨hne, hafter⟩, Nat.add_assoc, Nat.add_comm (name.length + 1) i, ← Nat.add_assoc]
+    exact hhigh _ (by omega) (by omega)
 
 end Rj.Exe
